@@ -111,7 +111,7 @@ func run(env *drive.Env) error {
 			if err != nil {
 				panic(err)
 			}
-			env.Emit(map[string]interface{}{"ev": "Block", "blk": 0, "imp": "", "cb": "-", "obs": w.ReadBuckets(st0, nil, true)})
+			env.Emit(map[string]interface{}{"ev": "Block", "blk": 0, "pe": false, "imp": "", "cb": "-", "obs": w.ReadBuckets(st0, nil, true)})
 			for bi := range beh {
 				ab := &beh[bi]
 				var n uint64
@@ -146,7 +146,7 @@ func run(env *drive.Env) error {
 				if err != nil {
 					panic(err)
 				}
-				env.Emit(map[string]interface{}{"ev": "Block", "blk": n, "imp": imp, "cb": ab.Cb, "obs": w.ReadBuckets(st, nil, true)})
+				env.Emit(map[string]interface{}{"ev": "Block", "blk": n, "pe": (n+1)%per == 0, "imp": imp, "cb": ab.Cb, "obs": w.ReadBuckets(st, nil, true)})
 			}
 		}()
 		beh = nil
